@@ -1285,7 +1285,12 @@ class MultiAgentRLAlgorithm(EvolvableAlgorithm, ABC):
         :rtype: torch.Tensor[float] or dict[str, torch.Tensor[float]] or Tuple[torch.Tensor[float], ...]
         """
         preprocessed = {}
-        for agent_id, obs in observation.items():
+        # Canonical agent order, whatever the order of the observation dictionary: callers
+        # pair the values with self.agent_ids / self.actors by position
+        for agent_id in self.agent_ids:
+            if agent_id not in observation:
+                continue
+            obs = observation[agent_id]
             preprocessed[agent_id] = preprocess_observation(
                 observation=obs,
                 observation_space=self.observation_space.get(agent_id),
